@@ -11,7 +11,10 @@ EXPLANATION = (
     "return flag after each statement and leaves on it, and every activation (function, method, constructor body, destructor) saves the "
     "flag, clears it before running the body and restores it on all normal paths; (R07.4) every subscript of a value array by a "
     "computed index is dominated by the `i < 0 || i >= size` test on the same container (or is the induction variable of a loop bounded "
-    "by that container's size), and `/`/`%` are dominated by their zero tests; (R07.5) `/` yields the Float tag on every path. Values "
+    "by that container's size), and `/`/`%` are dominated by their zero tests; (R07.5) `/` yields the Float tag on every path; (R07.6) in the binary-operator cascade an "
+    "operation on the double-converted operands is reached only under the has-a-float-operand guard (or in `/`), an operation on the "
+    "64-bit integer operands only under its negation (or in `%`), and Float/Long/Int result tags sit under the matching guards — "
+    "comparing or adding two longs through double silently loses precision above 2^53. Values "
     "and result types of the operator cascade (8×8×20 combinations), formatting and casts are a differential property against a "
     "reference interpreter and are NOT decided.")
 
@@ -22,6 +25,7 @@ def run(prog, chk):
     chk.rule('R07.2', 'return unwinding: statement loops test the flag after each statement; activations save/clear/restore it')
     chk.rule('R07.4', 'computed subscripts of value arrays are dominated by the bounds test on the same container; / and % by zero tests')
     chk.rule('R07.5', 'the `/` branch returns a Float-tagged value on every path')
+    chk.rule('R07.6', 'numeric routing: double arithmetic only when an operand is float, integer arithmetic only when none is; result tags follow the same guards')
     ex, ev = R.ev_method('exec'), R.ev_method('eval')
     recs = prog.facts.records
 
@@ -78,6 +82,12 @@ def run(prog, chk):
                 # from the exec call, the loop head can only be reached again through a test of the flag …
                 r = g.reachable(node, avoid=tests)
                 back = head[0].id in r
+                # … and nothing is evaluated in between (a for-loop's increment after `return` would run user code once more and
+                # overwrite the pending return value)
+                entry_names = {x.name for x in (ex, ev)} | {x.name for x in R.ev_methods() if x.short in ('call', 'callMethod')}
+                between = [c for c in g.calls(lambda x: x['k'] == 'mcall' and x.get('callee') in entry_names) if c.id in r and c not in node]
+                if between:
+                    back = True
                 # … whose true edge leaves the loop
                 leaves = all(head[0].id not in g.reachable([t.succ[0]], avoid=[x for x in g.nodes if x.kind == 'loophead' and x is not head[0] and g.dominates(x, head[0])]) or
                              _exits_loop(g, t.succ[0], head[0]) for t in tests if node and t.id in g.reachable(node))
@@ -178,6 +188,9 @@ def run(prog, chk):
         chk.ob('R07.5', ev, n.get('ln', ev.ln), 'Float' in txt, '`/` returns a Float-tagged value: %s' % txt[:60], key='div-float')
     chk.count('language-level divisions', nd, 1)
 
+    # ---- R07.6 numeric routing of the binary-operator cascade ----------------------------------------
+    _routing(prog, chk, ev)
+
 
 def _peel(e):
     e = SX.strip(e)
@@ -238,3 +251,138 @@ def _node_containing(g, x):
         if SX.is_node(e) and any(y is x for y in SX.walk(e, into_lambdas=False)):
             return cn
     return None
+
+
+def _routing(prog, chk, ev):
+    """Roles by definition shape: F = bool local := (l.type == Float || r.type == Float); L likewise with Long; D = double locals
+    initialised `x.type == Float ? x.floatValue : (double) n`; N = the integer locals those read."""
+    g = prog.cfg(ev)
+
+    def tag_disj(v, tag):
+        i = SX.strip(v.get('init'))
+        if not (SX.is_node(i) and i['k'] == 'bin' and i['op'] == '||'):
+            return False
+        sides = [SX.strip(i['l']), SX.strip(i['r'])]
+        return all(SX.is_node(x) and x['k'] == 'bin' and x['op'] == '==' and SX.strip(x['r']).get('k') == 'ref' and SX.strip(x['r'])['name'].endswith('Type::' + tag)
+                   and SX.strip(x['l']).get('k') == 'member' and SX.strip(x['l'])['name'] == 'type' for x in sides)
+    F, L, D, N = {}, {}, {}, {}
+    for v in SX.walk(ev.body, into_lambdas=False):
+        if v['k'] != 'var' or not SX.is_node(v.get('init')):
+            continue
+        if v.get('type') == 'bool' and tag_disj(v, 'Float'):
+            F[v['id']] = v
+        elif v.get('type') == 'bool' and tag_disj(v, 'Long'):
+            L[v['id']] = v
+        elif v.get('type') == 'double':
+            i = SX.strip(v['init'])
+            if i.get('k') == 'cond' and 'Float' in SX.show(i['c']) and 'floatValue' in SX.show(i['t']):
+                D[v['id']] = v
+                for x in SX.walk(i['f']):
+                    if x['k'] == 'ref' and x.get('kind') == 'var' and x.get('t') in ('long', 'long long', 'std::int64_t', 'int64_t'):
+                        N[x['id']] = x
+    if len(F) != 1 or len(L) != 1:
+        raise AnalysisBroken('numeric cascade roles not resolved (F=%d L=%d)' % (len(F), len(L)))
+    fid, lid = list(F)[0], list(L)[0]
+    fdecl = [n for n in g.nodes if n.kind == 'decl' and n.e is F[fid]]
+    if not fdecl:
+        raise AnalysisBroken('has-float declaration not in the CFG')
+    fdecl = fdecl[0]
+    # only the converted operands of this cascade (declared next to the flags)
+    for vid in list(D):
+        dn = [n for n in g.nodes if n.kind == 'decl' and n.e is D[vid]]
+        if not dn or not g.dominates(fdecl, dn[0]):
+            del D[vid]
+    N = {}
+    for v in D.values():
+        for x in SX.walk(SX.strip(v['init'])['f']):
+            if x['k'] == 'ref' and x.get('kind') == 'var' and x.get('t') in ('long', 'long long', 'std::int64_t', 'int64_t'):
+                N[x['id']] = x
+    if len(D) != 2 or len(N) != 2:
+        raise AnalysisBroken('numeric cascade operands not resolved (D=%d N=%d)' % (len(D), len(N)))
+
+    def pol_of(node, vid):
+        """+1 / -1 when the node is dominated by a branch on the flag itself, 0 otherwise"""
+        for ce, pol, _ in g.guards(node):
+            c = SX.strip(ce)
+            if SX.is_node(c) and c.get('k') == 'ref' and c.get('id') == vid:
+                return 1 if pol else -1
+        return 0
+
+    def op_branch(node):
+        for ce, pol, _ in g.guards(node):
+            if not pol:
+                continue
+            cp = SX.cmp_parts(ce)
+            if cp and cp[0] == '==':
+                for x in (cp[1], cp[2]):
+                    x = SX.strip(x)
+                    lit = [y for y in SX.walk(x) if y['k'] == 'str']
+                    if lit and len(lit[0]['v']) <= 2:
+                        return lit[0]['v']
+        return None
+
+    def operand_class(e):
+        e = _peel(e)
+        if SX.is_node(e) and e.get('k') == 'ref':
+            if e.get('id') in D:
+                return 'D'
+            if e.get('id') in N:
+                return 'N'
+        return None
+    nD = nN = ntag = 0
+    ARITH = ('+', '-', '*', '/', '%', '<', '>', '<=', '>=', '==', '!=')
+    for n in SX.walk(ev.body, into_lambdas=False):
+        if n['k'] != 'bin' or n['op'] not in ARITH:
+            continue
+        a, b = operand_class(n['l']), operand_class(n['r'])
+        if a is None or a != b:
+            continue
+        node = _node_containing(g, n)
+        if node is None or not g.dominates(fdecl, node):
+            continue
+        opb = op_branch(node)
+        if a == 'D':
+            nD += 1
+            ok = pol_of(node, fid) > 0 or opb == '/'
+            chk.ob('R07.6', ev, n.get('ln', ev.ln), ok,
+                   '`%s` computes on the double-converted operands; it must be reached only when an operand is float (guard %s) — integer operands above 2^53 lose precision' %
+                   (SX.show(n), F[fid]['name']), key='double-op:%s:%s' % (opb, n['op']))
+        else:
+            nN += 1
+            ok = pol_of(node, fid) < 0 or opb == '%'
+            chk.ob('R07.6', ev, n.get('ln', ev.ln), ok,
+                   '`%s` computes on the integer operands; it must be reached only when no operand is float (guard !%s)' % (SX.show(n), F[fid]['name']),
+                   key='int-op:%s:%s' % (opb, n['op']))
+    # result tags
+    for node in g.nodes:
+        if not g.dominates(fdecl, node) or node is fdecl:
+            continue
+        tag = None
+        if node.kind == 'return' and SX.is_node(node.e.get('e')):
+            e = SX.strip(node.e['e'])
+            if e.get('k') in ('construct', 'initlist'):
+                items = SX.real_args(e) if e['k'] == 'construct' else e.get('items', [])
+                if items and SX.strip(items[0]).get('k') == 'ref' and SX.strip(items[0]).get('kind') == 'enum':
+                    tag = SX.strip(items[0])['name'].split('::')[-1]
+        elif node.kind in ('assign', 'call'):
+            w = SX.write_target(node.e)
+            if w and SX.strip(w[0]).get('k') == 'member' and SX.strip(w[0])['name'] == 'type' and SX.is_node(SX.strip(w[1])) and SX.strip(w[1]).get('kind') == 'enum':
+                tag = SX.strip(w[1])['name'].split('::')[-1]
+        if tag not in ('Float', 'Long', 'Int'):
+            continue
+        opb = op_branch(node)
+        if opb not in ('+', '-', '*', '/', '%'):
+            continue
+        ntag += 1
+        pf, pl = pol_of(node, fid), pol_of(node, lid)
+        if tag == 'Float':
+            ok = pf > 0 or opb == '/'
+        elif tag == 'Long':
+            ok = pl > 0 and (pf < 0 or opb == '%')
+        else:
+            ok = pl < 0 and (pf < 0 or opb == '%')
+        chk.ob('R07.6', ev, node.ln or ev.ln, ok, 'result tagged %s in the `%s` branch sits under the matching operand-type guards (float:%+d long:%+d)' % (tag, opb, pf, pl),
+               key='tag:%s:%s' % (opb, tag))
+    chk.count('double-operand operations in the cascade', nD, 8)
+    chk.count('integer-operand operations in the cascade', nN, 8)
+    chk.count('tagged numeric results', ntag, 10)
